@@ -45,10 +45,21 @@ FirstBadError(e, i) ==
        THEN "FAIL:message_shape_or_path_wrong:"
   ELSE FirstBadError(e, i + 1)
 
+\* the errors of the validator used by substitution (d42/substitution/_validator.py)
+RECURSIVE FirstBadSubError(_, _)
+FirstBadSubError(e, i) ==
+  IF i > Len(e.serrs) THEN "OK"
+  ELSE IF ~e.slocated[i] THEN "FAIL:substitution_validator_path_does_not_lead_to_value:"
+  ELSE IF ~ErrorTrue(e.serrs[i], e.v) THEN "FAIL:substitution_validator_error_not_true:"
+  ELSE FirstBadSubError(e, i + 1)
+
 VerdictC03(e) ==
   IF e.exc # "" THEN "SKIP:validate_raised"
   ELSE IF ~e.rep THEN "SKIP:error_not_abstractable"
-  ELSE FirstBadError(e, 1)
+  ELSE LET a == FirstBadError(e, 1)
+       IN  IF a # "OK" THEN a
+           ELSE IF e.sexc # "" \/ ~e.srep THEN "OK"
+           ELSE FirstBadSubError(e, 1)
 
 SigC08(e) ==
   IF e.exc \in {"OverflowError", "ValueError"} /\ FloatRoundKnown(e.s)
@@ -76,12 +87,19 @@ Verdict(e) == CASE Prop = "C02" -> VerdictC02(e) [] Prop = "C03" -> VerdictC03(e
 
 \* the operational validator model predicts the real outcome exactly
 ErrKey(x) == <<x.kind, x.path>>
+SubDrift(e) ==
+  LET m == Errors(e.s, e.v, <<>>, "sub") IN
+  /\ e.sexc = "" /\ e.srep /\ ~HasExc(m)
+  /\ \/ Len(m) # Len(e.serrs)
+     \/ \E i \in DOMAIN m : ErrKey(m[i]) # ErrKey(e.serrs[i])
+
 Drift(e) ==
   LET o == ValidateOutcome(e.s, e.v) IN
   IF IsSome(o.exc) THEN e.exc # Get(o.exc)
   ELSE \/ e.exc # ""
        \/ e.nerrs # Len(o.errs)
        \/ e.rep /\ \E i \in DOMAIN o.errs : ErrKey(o.errs[i]) # ErrKey(e.errs[i])
+       \/ (Prop = "C03" /\ SubDrift(e))
 
 TraceNext == TraceStep(Verdict, Drift)
 
